@@ -305,7 +305,7 @@ def range_rule(ctx, R):
         R.check(key(c) == "cmp(lt, %s, T1)" % key(st.env.lookup(tvar)), "C17.RANGE", f.qual + "|%s strict upper bound" % tag, where(f, ws), "continues while time < t1 (half-open range)", "the %s runs while `%s`: the range must be [start, stop)" % (tag, ntext(ws.test)))
         s2 = st.fork()
         s2.env.vars[tvar] = Opaque("TIME")
-        s2.env.vars[lvar] = Seq("list", [], ident="RES")
+        # (the result list is the empty list of the pre-header: a local alias of its append method stays attached to it)
         ev.block(ws.body, s2, [])
         nxt = s2.env.lookup(tvar)
         R.check(key(nxt) == "STEP(TIME, 1)", "C17.RANGE", f.qual + "|%s advance" % tag, where(f, ws), "advances by exactly one unit", "the %s advances time to %s, expected step(time, 1): boundaries are skipped or repeated" % (tag, show(nxt)))
